@@ -42,6 +42,12 @@ type wrapReadme struct {
 	V int      `ion:"v"`
 	A []string `ion:",annotations"`
 }
+type lobStruct struct {
+	K []byte `ion:"k"`
+	N int    `ion:"n"`
+	L []byte `ion:"l"`
+	S string `ion:"s"`
+}
 type plainStruct struct {
 	A int    `ion:"a"`
 	B string `ion:"b"`
@@ -59,6 +65,7 @@ var unTargets = map[string]reflect.Type{
 	"*int": reflect.TypeOf(new(int)), "**int": reflect.TypeOf(new(*int)), "*string": reflect.TypeOf(new(string)), "*[]byte": reflect.TypeOf(new([]byte)),
 	"interface{}": tIface, "Timestamp": tTimestamp, "time.Time": tTime, "Decimal": tDecimal, "*Decimal": reflect.PtrTo(tDecimal), "big.Int": tBigInt, "*big.Int": reflect.PtrTo(tBigInt),
 	"SymbolToken": tSymTok, "wrapInt": reflect.TypeOf(wrapInt{}), "wrapAny": reflect.TypeOf(wrapAny{}), "wrapStr": reflect.TypeOf(wrapStr{}), "wrapReadme": reflect.TypeOf(wrapReadme{}),
+	"[][]byte": reflect.TypeOf([][]byte(nil)), "lobStruct": reflect.TypeOf(lobStruct{}), "map[string][]byte": reflect.TypeOf(map[string][]byte(nil)),
 	"uintptr": reflect.TypeOf(uintptr(0)), "[]uint16": reflect.TypeOf([]uint16(nil)), "[][]int": reflect.TypeOf([][]int(nil)), "chan int": reflect.TypeOf((chan int)(nil)),
 }
 
@@ -76,6 +83,7 @@ var unValues = []string{
 	"{{}}", "{{aGVsbG8=}}", "{{AAECAw==}}", "{{\"\"}}", "{{\"clob\\xff\"}}", "{{\"abcd\"}}",
 	"[]", "[1]", "[1,2]", "[1,2,3]", "[1,\"a\"]", "[[1],[2,3]]", "[null]", "[300]", "[-1]", "()", "(1 2)", "(a b)", "(+ 1 2)",
 	"{}", "{a:1}", "{a:1,b:\"x\"}", "{a:1,b:\"x\",c:[1,2],d:ignored}", "{A:5}", "{a:\"wrong\"}", "{a:null.int}", "{x:{y:1}}", "{k1:1,k2:2}", "{k:300}",
+	"[{{AQID}},{{BAUG}}]", "[{{\"abcdefgh\"}},{{QUJDRA==}},{{}}]", "{k:{{qrvM3Q==}},n:258,l:{{\"xy\"}},s:\"zzzzzzzz\"}", "{a:{{AQID}},b:{{BAUG}},c:{{Bwg=}}}",
 	"ann::1", "a::b::1", "ann::\"s\"", "ann::null.int", "ann::[1,2]", "ann::{a:1}", "ann::sym", "'$5'::1", "$0::1", "ann::1.5e0", "ann::2020T", "ann::{{aGk=}}",
 }
 
@@ -537,7 +545,8 @@ func runC17(c *Ctx) {
 	c.Obs("matrix_targets", int64(len(names)))
 	c.Exhaustive(fmt.Sprintf("%d Ion values (every type, every typed null, ints at every target-width boundary, float32 boundaries, symbols with/without text, lobs, containers, annotated variants) x %d target types x {text, binary} x {Unmarshal, UnmarshalString, Decoder.DecodeTo}", len(unValues), len(names)))
 	// Decoder over n values yields exactly those n, in order, then ErrNoInput (repeatedly)
-	streams := []string{"", "1", "1 2 3", "a \"b\" [1] {x:1} null", "null null.int null", "1 $ion_symbol_table::{symbols:[\"s\"]} $10 2"}
+	streams := []string{"", "1", "1 2 3", "a \"b\" [1] {x:1} null", "null null.int null", "1 $ion_symbol_table::{symbols:[\"s\"]} $10 2",
+		"{{\"abcdefgh\"}} {{QUJDRA==}} 31354 {{AQID}} \"zzzzzzzz\" {{BAUG}}", "[{{AQID}},{{BAUG}}] {k:{{qrvM3Q==}},n:258} 1.5e0"}
 	for _, s := range streams {
 		for _, bin := range []bool{false, true} {
 			c.Eval(1)
@@ -564,13 +573,16 @@ func runC17(c *Ctx) {
 					}
 				}
 				d := ion.NewDecoder(ion.NewReader(bytes.NewReader(data)))
+				// decode everything first, compare afterwards: a value must not change when later ones are read
+				xs := make([]interface{}, len(vals))
 				for i := range vals {
-					var x interface{}
-					if err := d.DecodeTo(&x); err != nil {
+					if err := d.DecodeTo(&xs[i]); err != nil {
 						return fmt.Sprintf("value %d of %d: %v", i, len(vals), err)
 					}
-					if df := faithful(vals[i], reflect.ValueOf(&x).Elem()); df != "" {
-						return fmt.Sprintf("value %d of %d: %s", i, len(vals), df)
+				}
+				for i := range vals {
+					if df := faithful(vals[i], reflect.ValueOf(&xs[i]).Elem()); df != "" {
+						return fmt.Sprintf("value %d of %d (compared after the whole stream was decoded): %s", i, len(vals), df)
 					}
 				}
 				for rep := 0; rep < 3; rep++ {
